@@ -54,5 +54,7 @@ FamilyN(p) ==
             LET nm2 == [nm1 EXCEPT ![NSlots[j]] = n2] IN NamingOK(nm2) /\ p = NProg(nm2)
 \* the base program with only the package-level variable named (C03 / C04: the error and cleanup variables of the generated
 \* code next to live package-level variables of those names)
+\* the base program with one slot renamed (e.g. the other package named like the injector's package, or like a generated local)
+FamilyNOne(p, slot, vs) == \E v \in vs : p = NProg([Base EXCEPT ![slot] = v])
 FamilyNVar(p, vs) == \E v \in vs : p = NProg([Base EXCEPT !["var"] = v])
 =============================================================================
